@@ -157,6 +157,12 @@ func c21edit(root, which string, k int) error {
 			return err
 		}
 		return writeFileAt(filepath.Join(root, fmt.Sprintf("n%d", k)), []byte(fmt.Sprintf("new file %d\n", k)), 100+k)
+	case "set0", "set1", "set2": // f1 rewritten in place with one of three SAME-SIZE contents (set0 = the initial one)
+		if _, err := os.Lstat(root); err != nil {
+			return nil
+		}
+		content := map[string][]byte{"set0": c21F1, "set1": []byte("uno\n"), "set2": []byte("ein\n")}[which]
+		return writeFileAt(filepath.Join(root, "f1"), content, 100+k)
 	case "delroot":
 		return os.RemoveAll(root)
 	case "mkroot":
@@ -302,7 +308,7 @@ func (w *c21world) step(i int, op string) bool {
 			w.res.outcomes = append(w.res.outcomes, "scan:ok")
 		}
 
-	case "edit1", "edit2", "delroot", "mkroot":
+	case "edit1", "edit2", "delroot", "mkroot", "set0", "set1", "set2":
 		for _, s := range []*c21side{w.L, w.R} {
 			if err := c21edit(s.root, op, i); err != nil {
 				w.res.infra = fmt.Sprintf("%s on %s: %v", op, s.name, err)
@@ -616,7 +622,7 @@ func TestC21(t *testing.T) {
 	// plan push it over, so scans fail with try-again and stage/transition hit the limit).
 	limits := []uint64{0, 6}
 	compressions := []string{"none", "deflate"}
-	r.Rule(fmt.Sprintf("two mirrored roots (files f1, sub/f2 and a 3-block file b), one local endpoint used directly and one behind remote client/server over an in-memory duplex stream; compression {none, deflate} x MaximumEntryCount {unlimited, 6} (quick: limit 6 with compression none only) x every sequence of exactly %d ops from {scan, full scan, edit1 (content of f1), edit2 (sub toggles + new file), stage (dependencies of a fixed 4-change plan, data supplied from the peer tree), stage-stale (peer tree changed: one file differs, one is gone), supply (4 paths incl. a block-matched and a missing one), transition (the plan), delete root, recreate root}; each op applied to both sides and all return values compared; a sequence stops at the first hard error (endpoint contract); shorter sequences are prefixes. Polling leg (one testing/synctest bubble per sequence, both endpoints force-poll 1 s + accelerated scans, compression deflate (thorough: both)): every sequence of exactly %d ops from {scan, full scan, edit1, edit2, tick (1.1 s of virtual time), stage, transition, poll (real Poll left pending, cancelled before the next endpoint call; compared: woken by an event or not)}. Non-trivial = at least one scan-after-something, stage, supply or transition returned successfully on both sides, or a Poll was woken by an event; distinct by the whole case", depth, map[bool]int{false: 4, true: 5}[vr.Thorough()]))
+	r.Rule(fmt.Sprintf("two mirrored roots (files f1, sub/f2 and a 3-block file b), one local endpoint used directly and one behind remote client/server over an in-memory duplex stream; compression {none, deflate} x MaximumEntryCount {unlimited, 6} (quick: limit 6 with compression none only) x every sequence of exactly %d ops from {scan, full scan, edit1 (content of f1), edit2 (sub toggles + new file), stage (dependencies of a fixed 4-change plan, data supplied from the peer tree), stage-stale (peer tree changed: one file differs, one is gone), supply (4 paths incl. a block-matched and a missing one), transition (the plan), delete root, recreate root}; each op applied to both sides and all return values compared; a sequence stops at the first hard error (endpoint contract); shorter sequences are prefixes. Snapshot-history leg (no-watch, both compressions): every sequence of exactly %d ops from {scan, f1 rewritten in place with one of three same-size contents (one of them the initial content)} - up to that many scans through one client with the serialized snapshot length unchanged. Polling leg (one testing/synctest bubble per sequence, both endpoints force-poll 1 s + accelerated scans, compression deflate (thorough: both)): every sequence of exactly %d ops from {scan, full scan, edit1, edit2, tick (1.1 s of virtual time), stage, transition, poll (real Poll left pending, cancelled before the next endpoint call; compared: woken by an event or not)}. Non-trivial = at least one scan-after-something, stage, supply or transition returned successfully on both sides, or a Poll was woken by an event; distinct by the whole case", depth, map[bool]int{false: 6, true: 7}[vr.Thorough()], map[bool]int{false: 4, true: 5}[vr.Thorough()]))
 	r.Assume("native (inotify) watching is not used: the no-watch leg has no background scans, the polling leg owns time through the synctest bubble; within one quiescence step goroutine order is the Go scheduler's",
 		"cancellation in the middle of Scan/Transition is not enumerated (its outcome races with the operation itself on both sides); the completion-request path is exercised by every Scan/Transition (normal completion) and by cancelled Polls in the polling leg",
 		"error TEXT is compared only modulo the 'remote error: ' prefix and recorded, not demanded; error class and try-again are demanded",
@@ -673,6 +679,77 @@ func TestC21(t *testing.T) {
 				r.Violate(vr.J(cut), res.viol, cut, func() bool { return c21run(e, good, stale, cut, nil).viol != "" })
 			}
 		})
+	})
+	if len(infra) > 0 {
+		t.Fatalf("INFRA: %s", strings.Join(infra, "\n"))
+	}
+	// ---- snapshot-history leg: many scans through ONE client over same-size edits ----
+	// The serialized snapshot keeps its length while its bytes change and change
+	// back, so every way of mixing up baselines and deltas across scans shows.
+	histDepth := 6
+	if vr.Thorough() {
+		histDepth = 7
+	}
+	histOps := []string{"scan", "set0", "set1", "set2"}
+	var histSeqs [][]string
+	{
+		seq := make([]string, histDepth)
+		var rec func(pos int)
+		rec = func(pos int) {
+			if pos == histDepth {
+				histSeqs = append(histSeqs, append([]string(nil), seq...))
+				return
+			}
+			for _, o := range histOps {
+				seq[pos] = o
+				rec(pos + 1)
+			}
+		}
+		rec(0)
+	}
+	r.Set("history_leg_depth", histDepth)
+	r.Set("history_leg_sequences", len(histSeqs))
+	const histChunk = 64
+	nchunks := (len(histSeqs) + histChunk - 1) / histChunk
+	vr.Parallel(nchunks*len(compressions), func(i int) {
+		if time.Now().After(deadline) {
+			skipped.Add(1)
+			return
+		}
+		comp := compressions[i/nchunks]
+		lo := (i % nchunks) * histChunk
+		hi := min(lo+histChunk, len(histSeqs))
+		l := r.Local()
+		defer l.Flush()
+		for _, seq := range histSeqs[lo:hi] {
+			c := c21case{Compression: comp, Ops: seq}
+			res := c21run(e, good, stale, c, nil)
+			if res.infra != "" {
+				mu.Lock()
+				if len(infra) < 5 {
+					infra = append(infra, vr.J(c)+": "+res.infra)
+				}
+				mu.Unlock()
+				continue
+			}
+			// Non-trivial here: at least three scans with an edit between them.
+			scans := 0
+			for _, o := range seq {
+				if o == "scan" {
+					scans++
+				}
+			}
+			l.Case(vr.J(c), res.nontrivial && scans >= 3)
+			for _, o := range res.outcomes {
+				l.Outcome("history-leg:" + o)
+			}
+			if res.viol != "" {
+				l.Outcome("violation")
+				cut := c
+				cut.Ops = append([]string(nil), c.Ops[:res.executed]...)
+				r.Violate(vr.J(cut), res.viol, cut, func() bool { return c21run(e, good, stale, cut, nil).viol != "" })
+			}
+		}
 	})
 	if len(infra) > 0 {
 		t.Fatalf("INFRA: %s", strings.Join(infra, "\n"))
@@ -761,6 +838,7 @@ func TestC21(t *testing.T) {
 	}
 	r.Sample(c21case{Compression: "deflate", Ops: []string{"scan", "stage", "transition", "scan"}})
 	r.Sample(c21case{Compression: "none", Max: 6, Ops: []string{"scan", "edit2", "scan", "stage-stale"}})
+	r.Sample(c21case{Compression: "deflate", Ops: []string{"scan", "set1", "scan", "set0", "scan", "set2"}})
 	r.Sample(c21case{Mode: "poll", Compression: "deflate", Ops: []string{"scan", "edit1", "scan", "fullscan"}})
 	r.Sample(c21case{Mode: "poll", Compression: "deflate", Ops: []string{"poll", "edit2", "tick", "scan"}})
 }
